@@ -102,6 +102,9 @@ def main():
     finally:
         sh(f"git -C {SEED_REPO} checkout -- .")
         sh(f"git -C {SEED_REPO} clean -fdq -- . ':!verif_*'")
+        # the checks above rewrote evidence/<id>.json from runs on the CHANGED tree: the committed evidence describes the
+        # unchanged tree, put it back
+        sh(f"git -C {ROOT} checkout -- evidence")
     code, o = sh(f"git -C {SEED_REPO} status --porcelain")
     assert o.strip() == "", SEED_REPO + " not clean after undo:\n" + o
     fcntl.flock(lock, fcntl.LOCK_UN)
